@@ -36,7 +36,11 @@ struct Runner {
 
 impl Runner {
     fn new(h: &History) -> Runner {
-        Runner { w: World::new(&h.setup), h: h.clone(), next: 0, helper: <TreeCheck as Check>::new("C19", Tier::Quick) }
+        Runner::with_prefix(h, "cosmwasm")
+    }
+
+    fn with_prefix(h: &History, prefix: &'static str) -> Runner {
+        Runner { w: World::with_prefix(&h.setup, prefix), h: h.clone(), next: 0, helper: <TreeCheck as Check>::new("C19", Tier::Quick) }
     }
 
     fn done(&self) -> bool {
@@ -47,6 +51,7 @@ impl Runner {
     fn step(&mut self) -> String {
         let tx = self.h.txs[self.next].clone();
         self.next += 1;
+        self.w.enter();
         let none = BTreeSet::new();
         match &tx.kind {
             TxKind::Store(spec) => {
@@ -127,7 +132,7 @@ impl Check for DetCheck {
 
     fn budget(_id: &str, tier: Tier) -> Budget {
         match tier {
-            Tier::Quick => Budget { cases: 3000, max_bytes: 12000 },
+            Tier::Quick => Budget { cases: 5000, max_bytes: 12000 },
             Tier::Thorough => Budget { cases: 40_000, max_bytes: 20000 },
         }
     }
@@ -145,16 +150,17 @@ impl Check for DetCheck {
         // A: alone
         let ta = run_alone(&case.history);
         // B: interleaved with another instance in the same thread
+        // the other instance is configured differently (another bech32 prefix) and moves first
+        let mut c = Runner::with_prefix(&case.other, "juno");
         let mut b = Runner::new(&case.history);
-        let mut c = Runner::new(&case.other);
         let mut tb = vec![];
         let mut interleaved = 0;
         while !b.done() {
-            tb.push(b.step());
             if !c.done() {
                 let _ = c.step();
                 interleaved += 1;
             }
+            tb.push(b.step());
         }
         tb.push(b.digest());
         if let Some((i, x, y)) = first_diff(&ta, &tb) {
@@ -163,7 +169,15 @@ impl Check for DetCheck {
         // D: second OS thread, concurrently with a thread running the other history
         let (h1, h2) = (case.history.clone(), case.other.clone());
         let t1 = std::thread::Builder::new().stack_size(64 << 20).spawn(move || run_alone(&h1)).unwrap();
-        let t2 = std::thread::Builder::new().stack_size(64 << 20).spawn(move || run_alone(&h2)).unwrap();
+        let t2 = std::thread::Builder::new()
+            .stack_size(64 << 20)
+            .spawn(move || {
+                let mut r = Runner::with_prefix(&h2, "osmo");
+                while !r.done() {
+                    let _ = r.step();
+                }
+            })
+            .unwrap();
         let td = t1.join().map_err(|_| Failure::new("C19:thread-panicked", "run in a second thread panicked"))?;
         let _ = t2.join();
         if let Some((i, x, y)) = first_diff(&ta, &td) {
